@@ -45,7 +45,7 @@ func sameParams(a, b types.Params) bool {
 
 // sceneGenesis: zero-height preparation, export, validation, import into a fresh chain, export again.
 func sceneGenesis(o ReqOpts) {
-	o.Batch, o.AllBound, o.Earned, o.NoSlash, o.OneOutput, o.ZeroDep = true, true, true, true, true, 1
+	o.Batch, o.AllBound, o.Earned, o.OneOutput, o.ZeroDep = true, true, true, true, 1 // every parameter stays free (nothing is slashed here)
 	s := NewReqScene(o)
 	k, ctx, id := s.K, s.Ctx, s.ID
 	// provider 0 also serves a second service (two bindings of one provider, one owner)
@@ -101,7 +101,7 @@ func sceneGenesis(o ReqOpts) {
 	earned := sdk.ZeroInt()
 	for i := 0; i < s.N; i++ {
 		earned = earned.Add(s.Earned0[i])
-		chk("C19", vf.Balance(s.Provs[i]).Sub(balP[i]).Equal(s.Earned0[i]), "earnings-returned-to-their-provider")
+		chk("C19 C18 C13", vf.Balance(s.Provs[i]).Sub(balP[i]).Equal(s.Earned0[i]), "earnings-returned-to-their-provider")
 	}
 	chk("C19", vf.Balance(s.Consumer).Sub(s.BalC0).Equal(refund), "pending-fees-returned-to-consumer")
 	chk("C19", vf.Balance(c2).Sub(balC2).Equal(fee2), "pending-fee-of-every-context-returned")
